@@ -1,4 +1,6 @@
 """Per-property workload profiles (DESIGN §6) and swarm configuration."""
+import os
+
 from ddsim import gen, prng
 from ddsim import ops_expr, ops_io, ops_mdd, ops_misc, ops_reject  # noqa: F401  (register ops)
 
@@ -116,6 +118,10 @@ def make_cfg(prop, seed, tier='quick', idx=0):
         reject_kinds=P.get('reject_kinds'),
         copy_copy=False, sift_tiny=bool(P.get('sift_tiny')),
     )
+    # open known findings: most runs steer around the trigger so that
+    # exploration continues past it; the rest confirm it is still the same
+    openf = [x for x in os.environ.get('DDSIM_OPEN_FINDINGS', '').split(',') if x]
+    cfg['avoid'] = [x for x in openf if r.random() < 0.9]
     if dyn:
         cfg['knobs'] = dict(
             starts=r.choice([1, 2, 5, 20, 100]),
